@@ -1,6 +1,6 @@
 CONSTANTS
   Defects = {"no_charset"}
-  Family = "names"
+  Family = "names_small"
   Deep = FALSE
 INIT Init
 NEXT Next
